@@ -163,6 +163,14 @@ pub fn clear_column(path: &Path, column: ColId) -> Result<()> {
 		return Err(Error::Migration("Invalid column index".into()))
 	}
 
+	// Same precheck as `Db::add_column` / `drop_last_column` / `reset_column`: open and close
+	// the database so that no write-ahead log is left pending. Records of the cleared column
+	// would otherwise be replayed into it by the next open.
+	let mut options = Options::with_columns(path, 0);
+	options.columns = meta.columns;
+	options.salt = Some(meta.salt);
+	drop(Db::open(&options)?);
+
 	crate::column::Column::drop_files(column, path.to_path_buf())?;
 
 	Ok(())
